@@ -61,13 +61,19 @@ def specLine (c : Case) (iso : Bool) : Option String :=
   (SLD.solveQuery fuel c.prog c.query c.max iso).map showOutcome
 
 def noOracle (impl : String) : Bool :=
-  impl.endsWith "end timeout" || impl.endsWith "end cyclic" || impl.startsWith "assert-" || impl.startsWith "BAD-CASE"
+  impl.endsWith "end cyclic" || impl.startsWith "assert-" || impl.startsWith "BAD-CASE" || impl.startsWith "SKIPPED"
 
 def judge (c : Case) (iso : Bool) (impl : String) : String :=
   if noOracle impl then "-" else
   match specLine c iso with
   | none => "-"         -- out of fuel, or a unification subject to occurs check: undefined
-  | some want => if impl = want then "ok" else "FAIL spec says " ++ want
+  | some want =>
+    if impl = want then "ok"
+    else if impl.endsWith "end timeout" then
+      -- the reference search is finite and small (a few thousand steps): not finishing within the time
+      -- limit, twice, is non-termination
+      "FAIL the implementation did not finish (time limit, confirmed by a second run with 4x the limit); spec says " ++ want
+    else "FAIL spec says " ++ want
 
 /-! ### the VM model's line -/
 
@@ -90,6 +96,6 @@ def vmLine (c : Case) : String :=
 def handler (iso : Bool := false) : Handler := fun payload impl =>
   match parseCase payload with
   | none => ("BAD-CASE", "-")
-  | some c => (if noOracle impl then "NOMODEL " ++ impl else vmLine c, judge c iso impl)
+  | some c => (if noOracle impl || impl.endsWith "end timeout" then "NOMODEL " ++ impl else vmLine c, judge c iso impl)
 
 end PrologVerif.Driver.C01
